@@ -9,6 +9,7 @@ back: frequencies and curves bit for bit, masks, search range, peaks, every
 statistic (==), and the derived columns of the file against the object's own
 mean / std curve and against the exact value of the specification.
 """
+import json
 import os
 import sys
 import warnings
@@ -166,6 +167,73 @@ def diffuse_field(run, hvsrpy, wd, rng):
     return n
 
 
+def kwargs_roundtrip(run, hvsrpy, wd):
+    """Objects whose peaks were picked with non-default find_peaks_kwargs (a one-sample spike and a broad lower bump:
+    width=2 selects the bump) over the default, a half-open and a bounded range, with and without rejected windows:
+    the read-back object has the same per-window peaks, masks, range and statistics."""
+    f = np.geomspace(0.5, 20, 14)
+
+    def rows(k):
+        out = []
+        for w in range(4):
+            a = np.ones(14)
+            a[2 + ((w + k) % 2)] = 6.0 + w
+            a[7:12] = [2.0, 3.0, 3.5 + 0.1 * (w + k), 3.0, 2.0]
+            out.append(a)
+        return np.array(out)
+    fn = os.path.join(wd, "kwargs.csv")
+    n = 0
+    for kind in ("traditional", "azimuthal"):
+        for kwargs in (dict(width=2), dict(prominence=1.2), None):
+            for rng_ in ((None, None), (None, 15.0), (0.8, 18.0)):
+                for masks in ([True] * 4, [True, False, True, True]):
+                    if kind == "traditional":
+                        obj = hvsrpy.HvsrTraditional(f, rows(0), meta={"processing_method": "traditional"})
+                        inner = [obj]
+                    else:
+                        mt = {"processing_method": "traditional"}
+                        obj = hvsrpy.HvsrAzimuthal([hvsrpy.HvsrTraditional(f, rows(0), meta=dict(mt)), hvsrpy.HvsrTraditional(f, rows(1), meta=dict(mt))], [0.0, 90.0],
+                                                   meta={"processing_method": "azimuthal"})
+                        inner = obj.hvsrs
+                    obj.update_peaks_bounded(search_range_in_hz=rng_, find_peaks_kwargs=kwargs)
+                    inner[-1].valid_window_boolean_mask = np.array(masks) & np.asarray(inner[-1].valid_window_boolean_mask)
+                    inner[-1].valid_peak_boolean_mask = np.array(masks) & np.asarray(inner[-1].valid_peak_boolean_mask)
+                    label = f"{kind} find_peaks_kwargs={kwargs} range={rng_} masks={masks}"
+                    rep = dict(kind="roundtrip-kwargs", obj=kind, kwargs=kwargs, range=rng_, masks=masks)
+                    try:
+                        with warnings.catch_warnings():
+                            warnings.simplefilter("ignore")
+                            hvsrpy.write_hvsr_object_to_file(obj, fn, distribution_mc="lognormal", distribution_fn="lognormal")
+                            back = hvsrpy.read_hvsr_object_from_file(fn)
+                    except Exception as e:
+                        run.violation(f"roundtrip:kwargs:exception:{kind}", f"{label}: write/read raised {type(e).__name__}: {e}", rep)
+                        continue
+                    binner = [back] if kind == "traditional" else back.hvsrs
+                    for k, (x, y) in enumerate(zip(inner, binner)):
+                        if not (np.array_equal(x._main_peak_frq, y._main_peak_frq, equal_nan=True) and np.array_equal(x._main_peak_amp, y._main_peak_amp, equal_nan=True)):
+                            run.violation(f"roundtrip:kwargs:peaks:{kind}", f"{label}: window peaks of azimuth {k} after reading {y._main_peak_frq.tolist()}, "
+                                          f"before writing {x._main_peak_frq.tolist()}", rep)
+                        if not (np.array_equal(x.valid_window_boolean_mask, y.valid_window_boolean_mask) and np.array_equal(x.valid_peak_boolean_mask, y.valid_peak_boolean_mask)):
+                            run.violation(f"roundtrip:kwargs:masks:{kind}", f"{label}: masks of azimuth {k} differ after the round trip", rep)
+                    for name in ("mean_fn_frequency", "std_fn_frequency", "mean_curve_peak"):
+                        try:
+                            va = np.asarray(getattr(obj, name)("lognormal"), dtype=float)
+                        except Exception:
+                            continue
+                        try:
+                            vb = np.asarray(getattr(back, name)("lognormal"), dtype=float)
+                        except Exception as e:
+                            vb = np.array([np.nan])
+                        if va.shape != vb.shape or not np.array_equal(va, vb):
+                            run.violation(f"roundtrip:kwargs:stat-{name}:{kind}", f"{label}: {name} {vb.tolist()} after reading, {va.tolist()} before writing", rep)
+                    default = hvsrpy.HvsrTraditional(f, rows(0))
+                    default.update_peaks_bounded(search_range_in_hz=rng_)
+                    differs = not np.array_equal(default._main_peak_frq, inner[0]._main_peak_frq, equal_nan=True)
+                    n += 1
+                    run.case(("rt-kwargs", kind, json.dumps(kwargs), str(rng_), tuple(masks)) if differs else None)
+    run.notes["kwargs_round_trips"] = n
+
+
 def main():
     run = Run("C12")
     hvsrpy = import_hvsrpy()
@@ -197,6 +265,7 @@ def main():
         total += hook.n
     run.notes["round_trips"] = total
     run.notes["diffuse_field_round_trips"] = diffuse_field(run, hvsrpy, wd, np.random.RandomState(run.seed))
+    kwargs_roundtrip(run, hvsrpy, wd)
     return run.finish(
         rule="every state of the exported HvsrObject graphs (traditional and 2-azimuth objects, reached by replaying the "
              "TLC transitions on real objects) written to file and read back: curves bit for bit, masks, range, peaks, "
